@@ -686,7 +686,10 @@ func (t *Tap) c13OnSend(ss *sessTap, dir int, s *refproto.Segment, d *simnet.Dat
 		rec := ss.tx[dir][m.Seq]
 		if rec == nil {
 			// (3) first transmissions are gapless from zero
-			if m.Seq != ss.nextNew[dir] {
+			if m.Seq != ss.nextNew[dir] && !ss.closeSeen[dir] {
+				// (once this endpoint has emitted its close request the send queue has been
+				// discarded: what a Write racing the Close still puts on the wire is numbered
+				// after whatever was thrown away)
 				got, want, id := m.Seq, ss.nextNew[dir], d.ID
 				out = append(out, func() {
 					w.violate("C13", "sequence-gap", "datagram #%d %s session %d dir %d: first transmission of seq %d, expected %d", id, d.Flow, m.SessionID, dir, got, want)
@@ -877,6 +880,20 @@ func (t *Tap) isAttackerLocked(addr string) bool {
 		}
 	}
 	return false
+}
+
+// hasAnsweredStream: the first TCP connection of a genuine client exists and the server has
+// answered on it (the precondition of streamOfClient, without copying anything).
+func (t *Tap) hasAnsweredStream(ci int) bool {
+	t.mu.Lock()
+	defer t.mu.Unlock()
+	conn := -1
+	for id, st := range t.streams {
+		if st.client == ci && (conn == -1 || id < conn) {
+			conn = id
+		}
+	}
+	return conn >= 0 && len(t.streams[conn].writes[1]) > 0
 }
 
 // streamOfClient returns the recorded client-to-server bytes and segment
